@@ -115,13 +115,15 @@ Definition protocol_safe (old new : data) (tr : list op) : bool := all_states (k
 Definition protocol_power_safe (old new : data) (tr : list op) : bool := all_states (power_okb old new) (init old) tr.
 
 (* ---------------------------------------------------------------- the protocols as programs *)
-Inductive outcome := Ok | Short (n : nat) | Err.
+(** result of one fallible call: success; a short write of [n] bytes; an error; [EINTR] (retried by [write_all]) *)
+Inductive outcome := Ok | Short (n : nat) | Err | Intr.
 Definition oracle := list outcome.
 Definition next (fs : oracle) : outcome * oracle := match fs with [] => (Ok, []) | o :: r => (o, r) end.
 
 (** [io::Write::write_all]: loop [write(buf)] until the buffer is empty; an error ends it; a call that
     accepts 0 bytes is the error [WriteZero].  Returns the calls issued, whether all of [buf] was
-    written, and the rest of the oracle.  [fuel] bounds the number of calls (each accepts >= 1 byte). *)
+    written, and the rest of the oracle.  [fuel] bounds the number of calls: each accepts >= 1 byte or
+    consumes one [Intr] of the oracle, so [length buf + length fs] is enough. *)
 Fixpoint write_all (fuel : nat) (p : path) (buf : data) (fs : oracle) : list op * bool * oracle :=
   match buf with
   | [] => ([], true, fs)
@@ -131,6 +133,9 @@ Fixpoint write_all (fuel : nat) (p : path) (buf : data) (fs : oracle) : list op 
       | S fuel' =>
           match next fs with
           | (Err, fs') => ([OWriteFail p], false, fs')
+          | (Intr, fs') =>
+              let '(ops, ok, fs'') := write_all fuel' p buf fs' in
+              (OWriteFail p :: ops, ok, fs'')
           | (Ok, fs') => ([OWrite p buf], true, fs')
           | (Short n, fs') =>
               let k := Nat.min n (length buf) in
@@ -144,57 +149,43 @@ Fixpoint write_all (fuel : nat) (p : path) (buf : data) (fs : oracle) : list op 
       end
   end.
 
+Definition failed (fs : oracle) : bool := match fst (next fs) with Err => true | _ => false end.
+Definition rest (fs : oracle) : oracle := snd (next fs).
+
 (** [std::fs::write(path, new)] : what [luafmt --write] did before the repair *)
 Definition trunc_write (new : data) (fs : oracle) : list op :=
-  match next fs with
-  | (Err, _) => []                                  (* open failed: nothing happened *)
-  | (_, fs1) =>
-      let '(ws, _, _) := write_all (length new) TARGET new fs1 in
-      OOpenTrunc TARGET :: ws ++ [OClose TARGET]
-  end.
+  if failed fs then []                              (* open failed: nothing happened *)
+  else let '(ws, _, _) := write_all (length new + length fs) TARGET new (rest fs) in
+       OOpenTrunc TARGET :: ws ++ [OClose TARGET].
 
 (** [write_file_atomically(path, new)] (workspace.rs) with the temp file [tmp]:
     create_new(tmp) ; set_permissions (fchmod) ; write_all ; sync_all ; close ; rename(tmp, target) ;
     on an error after the creation: close, remove_file(tmp) *)
 Definition cleanup (tmp : path) : list op := [OClose tmp; OUnlink tmp].
 
+Definition tr_finish (tmp : path) (fs : oracle) : list op :=
+  if failed fs then [ORenameFail tmp TARGET; OUnlink tmp] else [ORename tmp TARGET].
+
+Definition tr_sync (tmp : path) (fs : oracle) : list op :=
+  if failed fs then OFsyncFail tmp :: cleanup tmp
+  else OFsync tmp :: OClose tmp :: tr_finish tmp (rest fs).
+
+Definition tr_write (tmp : path) (new : data) (fs : oracle) : list op :=
+  let '(ws, ok, fs') := write_all (length new + length fs) tmp new fs in
+  OChmod tmp :: ws ++ (if ok then tr_sync tmp fs' else cleanup tmp).
+
+Definition tr_chmod (tmp : path) (new : data) (fs : oracle) : list op :=
+  if failed fs then OChmodFail tmp :: cleanup tmp else tr_write tmp new (rest fs).
+
 Definition tmp_rename (tmp : path) (new : data) (fs : oracle) : list op :=
-  match next fs with
-  | (Err, _) => []                                  (* the temp file could not be created *)
-  | (_, fs0) =>
-      OCreate tmp ::
-      match next fs0 with
-      | (Err, _) => OChmodFail tmp :: cleanup tmp
-      | (_, fs1) =>
-          let '(ws, ok, fs2) := write_all (length new) tmp new fs1 in
-          OChmod tmp :: ws ++
-          (if negb ok then cleanup tmp
-           else match next fs2 with
-                | (Err, _) => OFsyncFail tmp :: cleanup tmp
-                | (_, fs3) =>
-                    OFsync tmp :: OClose tmp ::
-                    match next fs3 with
-                    | (Err, _) => [ORenameFail tmp TARGET; OUnlink tmp]
-                    | (_, _) => [ORename tmp TARGET]
-                    end
-                end)
-      end
-  end.
+  if failed fs then []                              (* the temp file could not be created *)
+  else OCreate tmp :: tr_chmod tmp new (rest fs).
 
 (** the same without the [sync_all] — safe for a killed process but not for a power loss *)
 Definition tmp_rename_nosync (tmp : path) (new : data) (fs : oracle) : list op :=
-  match next fs with
-  | (Err, _) => []
-  | (_, fs1) =>
-      let '(ws, ok, fs2) := write_all (length new) tmp new fs1 in
-      OCreate tmp :: ws ++
-      (if negb ok then cleanup tmp
-       else OClose tmp ::
-            match next fs2 with
-            | (Err, _) => [ORenameFail tmp TARGET; OUnlink tmp]
-            | (_, _) => [ORename tmp TARGET]
-            end)
-  end.
+  if failed fs then []
+  else let '(ws, ok, fs') := write_all (length new + length fs) tmp new (rest fs) in
+       OCreate tmp :: ws ++ (if ok then OClose tmp :: tr_finish tmp fs' else cleanup tmp).
 
 Inductive protocol := TruncWrite | TmpRename.
 
@@ -202,6 +193,15 @@ Definition program (pr : protocol) (tmp : path) (new : data) (fs : oracle) : lis
   match pr with
   | TruncWrite => trunc_write new fs
   | TmpRename => tmp_rename tmp new fs
+  end.
+
+(** the library calls of [write_file_atomically] in source order (read off the source by the translator of
+    checks/C39.py into Gen/C39_Writes.v); [tmp_rename] above is the program made of exactly these *)
+Inductive stepk := SCreateNew | SSetPerm | SWriteAll | SSyncAll | SRename | SRemoveOnError | SFsWrite.
+Definition model_steps (pr : protocol) : list stepk :=
+  match pr with
+  | TruncWrite => [SFsWrite]
+  | TmpRename => [SCreateNew; SSetPerm; SWriteAll; SSyncAll; SRename; SRemoveOnError]
   end.
 
 (** [pre] is a proper prefix of [l] *)
